@@ -1006,6 +1006,11 @@ class _Streamer(mcasm.Streamer):
         Appends data to the current block. This should be the only way that
         the section's data is modified.
         """
+        if not data:
+            # Directives such as ".zero 0" emit nothing; there is nothing to
+            # record a source line for.
+            return
+
         offset = len(self._state.current_section.data)
         self._state.current_section.line_map[
             gtirb.Offset(
@@ -1310,6 +1315,9 @@ class _Streamer(mcasm.Streamer):
 
     @_convert_errors
     def emit_bytes(self, state: mcasm.ParserState, data: bytes) -> None:
+        if not data:
+            return
+
         if not self._prevent_print_as_string_count:
             if self._try_terminate_previous_ascii_block(state, data):
                 return
